@@ -32,7 +32,7 @@ ANCHORS = [('optiland.geometries.standard', 'StandardGeometry.distance'),
            ('optiland.wavefront', 'Wavefront._get_path_length'), ('optiland.wavefront', 'Wavefront._opd_image_to_xp'),
            ('optiland.wavefront', 'Wavefront._get_reference_sphere'), ('optiland.wavefront', 'Wavefront._correct_tilt'),
            ('optiland.psf', 'FFTPSF.strehl_ratio'), ('optiland.psf', 'FFTPSF._get_normalization')]
-FAMILIES = ['paraboloid', 'paraboloid-folded', 'ellipsoid-foci', 'cassegrain', 'gregorian', 'plano-hyperbolic',
+FAMILIES = ['paraboloid', 'paraboloid-convex', 'paraboloid-folded', 'ellipsoid-foci', 'cassegrain', 'gregorian', 'plano-hyperbolic',
             'ellipsoid-refracting-immersed', 'sphere-mirror-centre', 'sphere-refract-centre', 'aplanatic']
 
 
@@ -64,6 +64,15 @@ def gen_case(rng, tier, i):
             img = [0.0, 0.0, -d + f]
         spec.update(aperture=['EPD', epd], field_type='angle', fields=[[0.0, 0, 0]])
         info.update(fno=f / epd, scale=f, image=img, real=True)
+    elif fam == 'paraboloid-convex':
+        # convex paraboloid mirror, collimated light: the reflected rays appear to come from the (virtual) focus behind
+        # the mirror; distance to the focus = distance to the directrix, so path - |surface -> focus| is constant
+        f = L.loguniform(rng, 10, 1000)
+        epd = min(f / speed, 3.9 * f * 0.95)
+        spec.update(obj_t='inf', surfaces=[dict(type='standard', radius=2 * f, conic=-1.0, medium='mirror', t=-f, stop=True),
+                                           dict(type='standard', radius='inf', t=0.0, medium='air')],
+                    aperture=['EPD', epd], field_type='angle', fields=[[0.0, 0, 0]])
+        info.update(fno=f / epd, scale=f, image=[0.0, 0.0, f], real=False, n1=1.0, n2=1.0)
     elif fam == 'ellipsoid-foci':
         a = L.loguniform(rng, 20, 500)
         e = float(rng.uniform(0.1, 0.85))
@@ -104,6 +113,15 @@ def gen_case(rng, tier, i):
         info.update(fno=f1 * (q / p) / epd, scale=f1, image=[0.0, 0.0, -d + q], real=True)
     elif fam == 'plano-hyperbolic':
         n = float(rng.uniform(1.3, 4.0))
+        glass = None
+        if rng.random() < 0.4:
+            # a catalogue (dispersive) glass, the lens designed for and evaluated at a wavelength that is NOT the
+            # primary one: everything the analyses take from the medium must be taken at the evaluated wavelength
+            g_ = L.GLASSES[int(rng.integers(len(L.GLASSES)))]
+            glass = {'glass': g_[0], 'ref': g_[1]}
+            n = float(L.medium_index(glass, wl))
+            spec['wavelengths'] = [[round(float(wl + (0.08 if wl < 0.58 else -0.08)), 4), True], [wl, False]]
+            info['dispersive_nonprimary'] = True
         R = -L.loguniform(rng, 5, 500)
         f = abs(R) / (n - 1)
         t = float(rng.uniform(0.05, 0.5) * abs(R))
@@ -112,7 +130,13 @@ def gen_case(rng, tier, i):
         c_, r_ = 1.0 / abs(R), epd / 2
         sag_rim = c_ * r_ * r_ / (1 + math.sqrt(1 + (n * n - 1) * c_ * c_ * r_ * r_))
         t = max(t, 1.1 * sag_rim + 0.01 * abs(R))       # positive edge thickness
-        spec.update(obj_t='inf', surfaces=[dict(type='standard', radius='inf', medium={'n': n}, t=t, stop=True),
+        first_medium = glass or {'n': n}
+        if glass is None and rng.random() < 0.35:
+            # built with ANOTHER index, used once, then given the index that makes it stigmatic through set_index: what the
+            # tracer remembers from the first use (media, paths) must not survive the edit
+            first_medium = {'n': round(n * float(rng.uniform(0.85, 0.95)), 6)}
+            info['edit_index'] = [1, n]
+        spec.update(obj_t='inf', surfaces=[dict(type='standard', radius='inf', medium=first_medium, t=t, stop=True),
                                            dict(type='standard', radius=R, conic=-n * n, medium='air', t=f),
                                            dict(type='standard', radius='inf', t=0.0, medium='air')],
                     aperture=['EPD', epd], field_type='angle', fields=[[0.0, 0, 0]])
@@ -170,6 +194,12 @@ def check_case(case, rec):
     rec.cls(f'family-{fam}', 'fast(f/<=1.5)' if info['fno'] <= 1.5 else 'moderate' if info['fno'] <= 4 else 'slow')
     lens = L.build(spec)
     wl = case['wl']
+    if info.get('edit_index'):
+        rec.cls('made-stigmatic-by-set_index-after-first-use')
+        lens.trace(0.0, 0.0, wl, 3, 'hexapolar')
+        from optiland.wavefront import Wavefront as _WF
+        _WF(lens, fields=[(0.0, 0.0)], wavelengths=[wl], num_rays=3, distribution='hexapolar')
+        lens.set_index(float(info['edit_index'][1]), int(info['edit_index'][0]))
     f = info['scale']
     img = np.array(info['image'], dtype=float)
     if info['fno'] <= 4:
